@@ -10,7 +10,8 @@
    `while let Some(chunk)` loop alone. The model is the code WITH fixes/F10.patch (empty chunks are
    skipped); [body_loop_orig] is the loop before it. *)
 From AV Require Import Lib.Base Gen.Consts H2.Prepare H2.SendLoop H2.Spec
-  H2.PrepareProofs H2.SendLoopProofs H2.ResponseProofs.
+  H2.PrepareProofs H2.SendLoopProofs H2.ResponseProofs H2.ErrorProofs
+  H2.RecvPayload H2.RecvPayloadProofs H2.Dispatch H2.DispatchProofs.
 
 Definition C := H2_CHUNK_SIZE.
 
@@ -183,6 +184,131 @@ Theorem C08_bodiless_holds_outside_known : forall now r caps sds,
     ([OHead (fst (prepare_response now (r_status r) (r_hdrs r) (r_size r))) true], ODone).
 Proof. exact (bodiless_outside_known C). Qed.
 
+(* ------------------------------------------------------------------ error paths of handle_response *)
+
+(* Every abnormal outcome has its cause in the environment: a send error comes from an
+   Err of poll_capacity or of send_data, a dropped body from poll_capacity = None, a body error from
+   the handler's body; SendResponse errors cannot come out of the body loop. *)
+Theorem C08_error_causes : forall evs caps sds t o,
+  body_loop C evs caps sds = (t, o) ->
+  match o with
+  | OErrSend => In CapErr caps \/ In false sds
+  | ODropped => In CapNone caps
+  | OErrBody => body_fails evs = true
+  | OErrResponse => False
+  | ODone | OBlocked => True
+  end.
+Proof. exact (body_loop_causes C). Qed.
+
+(* ... and each cause takes effect at once: Err(capacity) / Err(send_data) => DispatchError::SendData,
+   None => Ok(()) without END_STREAM, body Err => DispatchError::ResponseBody with nothing further
+   sent, failing final send_data => SendData error and no END_STREAM. *)
+Theorem C08_error_effects :
+  (forall chunk caps sds, snd (send_chunk C chunk (CapErr :: caps) sds) = SStop OErrSend) /\
+  (forall chunk caps sds, snd (send_chunk C chunk (CapNone :: caps) sds) = SStop ODropped) /\
+  (forall chunk n caps sds, send_chunk C chunk (CapOk n :: caps) (false :: sds) =
+                            ([OReserve (N.min (lenN chunk) C)], SStop OErrSend)) /\
+  (forall evs caps sds, body_loop C (BErr :: evs) caps sds = ([], OErrBody)) /\
+  (forall sds, finish (false :: sds) = ([], OErrSend)).
+Proof.
+  repeat split; try reflexivity.
+Qed.
+
+(* A failing body never completes the response and never gets an END_STREAM (the dropped stream is
+   reset by h2), whatever the schedule; under fair grants the function returns exactly the body
+   error after sending what preceded it. *)
+Theorem C08_body_error_resets : forall evs,
+  body_fails evs = true ->
+  (forall caps sds t o, body_loop C evs caps sds = (t, o) -> o <> ODone /\ eos_count t = O) /\
+  (forall caps, Forall positive_grant caps -> (length (body_bytes evs) <= length caps)%nat ->
+                snd (body_loop C evs caps []) = OErrBody).
+Proof.
+  intros evs Hf. split.
+  - intros caps sds t o H. destruct (body_loop_spec C _ _ _ _ _ H) as [rest [_ [Hd Hn]]].
+    assert (Ho : o <> ODone) by (intro Ho; destruct (Hd Ho) as [_ [Hf' _]]; congruence).
+    split; [exact Ho|exact (Hn Ho)].
+  - intros caps HF Hl. apply body_loop_error; assumption.
+Qed.
+
+(* send_response failing (stream already reset): nothing is sent, DispatchError::SendResponse. *)
+Theorem C08_send_response_error : forall now r caps sds,
+  handle_response C now r false caps sds = ([], OErrResponse).
+Proof. exact (send_response_error C). Qed.
+
+(* One run of handle_response sends exactly one response head, or none iff send_response failed. *)
+Theorem C08_one_head_per_task : forall now r sr caps sds t o,
+  handle_response C now r sr caps sds = (t, o) ->
+  head_count t = (if sr then 1 else 0)%nat /\ (sr = false <-> o = OErrResponse).
+Proof. exact (one_head C). Qed.
+
+(* ------------------------------------------------------------------ Dispatcher::poll bookkeeping *)
+
+(* For every sequence of poll_accept answers: the spawned handle_response tasks are exactly the
+   accepted requests of a prefix of that sequence, in order, one each, with head_req = (method is
+   HEAD); while the connection neither ends nor fails every accepted request has its task. With
+   C08_one_head_per_task: exactly one response (or a reset) per request. *)
+Theorem C08_dispatch_one_task_per_request :
+  (forall ka accs fl ppos sp res acts,
+     dispatch ka fl accs ppos = (sp, res, acts) -> exists k, sp = reqs_of (firstn k accs)) /\
+  (forall accs fl ppos, forallb (fun a => negb (is_stop a)) accs = true ->
+     dispatch false fl accs ppos = (reqs_of accs, DOpen, [])).
+Proof. split; [exact dispatch_spawns|exact dispatch_all]. Qed.
+
+(* Keep-alive ping-pong of one poll call (hypothesis inside the model: a timer reset in this call
+   is pending for the rest of it): the loop ends within three rounds; at most one PING is sent; the
+   connection is closed for a missing pong only when a PING was outstanding at entry and the timer
+   fired; a PING is marked outstanding afterwards only if one was before or one was just sent; a new
+   PING while one was outstanding is only sent after its pong arrived. *)
+Theorem C08_ping_pong : forall in_flight pongs timer ping_ok,
+  pp_poll in_flight false pongs timer ping_ok <> None /\
+  forall r fl acts ps, pp_poll in_flight false pongs timer ping_ok = Some (r, fl, acts, ps) ->
+    (pings acts <= 1)%nat /\
+    (r = PClose -> in_flight = true /\ timer = true /\ acts = []) /\
+    (fl = true -> in_flight = true \/ pings acts = 1%nat) /\
+    (in_flight = true -> pings acts = 1%nat -> fst (next_pong pongs) = PgReady).
+Proof.
+  intros. split; [apply pp_poll_total|]. intros. eapply pp_poll_spec; eassumption.
+Qed.
+
+(* ------------------------------------------------------------------ request side: h2::Payload *)
+
+(* [drain evs rels]: the handler polls `Payload::poll_next` once per answer of the RecvStream
+   ([RData b | RErr e | RPending | REnd], any list); [rels] are the results of release_capacity. *)
+
+(* Capacity given back to the peer = bytes handed to the handler: never more, never less. *)
+Theorem C08_payload_release_exact : forall evs rels its ops,
+  drain evs rels = (its, ops) -> released ops = lenN (concat (delivered its)).
+Proof. exact released_eq_delivered. Qed.
+
+(* release_capacity is called once per data chunk with that chunk's length, and for nothing else
+   (no call for an error item, for the end, for Pending). *)
+Theorem C08_payload_release_calls : forall evs rels its ops,
+  drain evs rels = (its, ops) -> map rel_amount ops = map lenN (received evs).
+Proof. exact release_calls. Qed.
+
+(* While release_capacity succeeds the handler sees the stream's answers one for one: the same
+   chunks in the same order, errors as PayloadError::Http2Payload, the end as the end. *)
+Theorem C08_payload_transparent : forall evs rels its ops,
+  forallb rel_ok rels = true -> drain evs rels = (its, ops) ->
+  its = map item_of evs /\ delivered its = received evs.
+Proof. exact transparent_when_release_ok. Qed.
+
+(* In general the delivered chunks are a subsequence of the received ones, in order: a chunk is
+   withheld only when its release_capacity fails, and then that error is delivered instead. *)
+Theorem C08_payload_subsequence : forall evs rels its ops,
+  drain evs rels = (its, ops) -> subseq (delivered its) (received evs).
+Proof. exact delivered_subseq. Qed.
+
+(* Error mapping: every stream error reaches the handler as Http2Payload of the same h2 error, and
+   the handler sees no error that is not an h2 stream error or a release_capacity error. *)
+Theorem C08_payload_error_mapping : forall evs rels its ops e,
+  drain evs rels = (its, ops) ->
+  (In (RErr e) evs -> In (PErr (Http2Payload e)) its) /\
+  (In (PErr (Http2Payload e)) its -> In (RErr e) evs \/ In (Some e) rels).
+Proof.
+  intros. split; [eapply stream_errors_forwarded|eapply error_sources]; eassumption.
+Qed.
+
 (* non-vacuity: a two-chunk body (with an empty chunk in between, the F10 witness) through a
    window that forces splitting, grants 0 / exact / larger than requested included *)
 Example C08_example :
@@ -194,3 +320,12 @@ Example C08_example :
       OReserve 2; OData [99] false; OReserve 1; OData [100] false; OData [] true], ODone)
   /\ Forall positive_grant [CapOk 1; CapOk 7] /\ known_status_body r = false.
 Proof. repeat split; try (vm_compute; reflexivity). repeat constructor. Qed.
+
+Example C08_example_request_side :
+  drain [RData [1;2]; RPending; RData []; RData [3]; RErr 8; REnd] [None; None; Some 5] =
+    ([PChunk [1;2]; PPending; PChunk []; PErr (Http2Payload 5); PErr (Http2Payload 8); PEnd],
+     [RelOk 2; RelOk 0; RelFail 1])
+  /\ dispatch true false [AReq 1 false; APending; AReq 3 true; APending; AEnd]
+        [mkPP [] true true; mkPP [PgReady] false true] =
+      ([(1, false); (3, true)], DOk, [PSendPing; PResetTimer; PResetTimer]).
+Proof. split; vm_compute; reflexivity. Qed.
